@@ -339,13 +339,25 @@ def run_history(spec, collect=None):
 def oracle_history(inp):
     spec = {'init': [{tuple(json.loads(k)): v for k, v in s.items()} for s in inp['init']],
             'calls': [(c, op, unjson_args(a)) for c, op, a in inp['calls']], 'nconn': inp['nconn'], 'shared': inp['shared']}
+    # other connections in the same process first: every read of the history once against a different BMC whose
+    # state is saturated (all status flags set) - results of the history may not depend on what those decoded
+    import random
+    pol = rand_state(random.Random(4711))
+    pol[(B.K_CHASSIS, 0, 0)] = [0x7f, 0x1f, 0x7f, 0xff]
+    other = B.RefBmc(pol)
+    oconn = F.connect(other.handle)
+    for _, op, a in spec['calls']:
+        if SPEC[op]['kind'] == 'read':
+            call(oconn, op, a)
     problems, _ = run_history(spec)
     # the same history once more in the same process, on fresh connections and fresh BMC instances: results may
     # not depend on what other (earlier) connections decoded
     problems2, _ = run_history(spec)
     problems = problems + problems2
     want = inp.get('key')
-    hits = [p for p in problems if want is None or p[0] == want]
+    # the property fails on this input if any call of the history violates it (the stored key names the first symptom
+    # seen in the original run; in a fresh process the same defect may surface under the sibling key)
+    hits = [p for p in problems if p[0] == want] or problems
     return hits[0][1] if hits else None
 
 
